@@ -753,6 +753,7 @@ def main():
         coverage |= cov
         if full.shared < 1:
             raise HarnessError("family %s: no shared type would be merged" % name)
+        error_histories(ck, name, tags, root)
         # chunk per (perm, kinds) so the per-process state cache hits
         groups = {}
         for perm, kinds, placed in enumerate_histories(name, tags, k):
@@ -807,7 +808,8 @@ def main():
     missing = ALL_FIELDS - coverage
     ck.extra["index_fields_populated"] = sorted(coverage)
     ck.extra["index_fields_never_populated"] = sorted(missing)
-    ck.extra["failing_histories_not_individually_reported"] = suppressed
+    ck.extra["failing_histories_not_individually_reported"] = \
+        ck.extra.get("failing_histories_not_individually_reported", 0) + suppressed
     ck.extra["canonical_states"] = states_total
     if suppressed:
         print("note: %d further failing histories were not reported individually" % suppressed, flush=True)
@@ -828,6 +830,97 @@ def main():
                      "interleaved queries; uniform kinds with every query placement",
                      "where no or several candidates are fully defined any eligible candidate is "
                      "accepted as the merged record (the property leaves the choice open)"])
+
+
+# ---------------------------------------------------------------- failed loads in a history
+def bad_files(fam, tags, root):
+    """damaged variants of the family's LAST library (never among the good ones)."""
+    ctx = _CTX[fam]
+    d = os.path.join(root, fam, "bad")
+    os.makedirs(d, exist_ok=True)
+    data = open(ctx["dbs"][tags[-1]], "rb").read()
+    lines = data.split(b"\n", 2)
+    out = [("missing", os.path.join(d, "nonexistent.in"))]
+
+    def w(kind, content):
+        p = os.path.join(d, kind + ".in")
+        with open(p, "wb") as f:
+            f.write(content)
+        out.append((kind, p))
+    w("empty", b"")
+    w("trunc-header", data[:5])
+    w("trunc-half", data[:len(data) // 2])
+    w("trunc-1short", data[:len(data.rstrip()) - 1])
+    w("major4", lines[0] + b"\n4 0\n" + lines[2])
+    w("minor99", lines[0] + b"\n3 99\n" + lines[2])
+    return out
+
+
+def run_error_history(fam, goods, kind, bad, p, query):
+    """loads `goods` with the bad file requested at position p; optionally a query right
+    after the bad request (so the failing load and the later ones happen in different
+    passes).  The error flag must be set at the end, the state must be the good ones'."""
+    ctx = _CTX[fam]
+    ops = []
+    seq = list(goods[:p]) + [None] + list(goods[p:])
+    for x in seq:
+        if x is None:
+            ops.append("load:" + bad)
+            if query:
+                ops.append("counts")
+        else:
+            ops.append("load:" + ctx["dbs"][x])
+    ops += ["counts", "err", "dump"]
+    r = tools.run_stable([ctx["exe"]] + ops, ctx["b"], timeout=60)
+    if r.timeout or r.rc != 0 or r.sanitizer:
+        return ["observer exited with status %s (timeout=%s): %s" % (r.rc, r.timeout, r.err[-400:])], None
+    lines = [json.loads(l) for l in r.out.splitlines() if l.startswith("{")]
+    problems = []
+    if not lines[-2].get("error"):
+        problems.append("error flag is clear although %s (%s) failed to load at position %d of %s"
+                        % (os.path.basename(bad), kind, p, "".join(goods) or "-"))
+    if goods:
+        st = judge_state(fam, tuple(goods), tuple("d" for _ in goods), lines[-1])
+        problems += ["after a failed load: " + x for x in st["problems"]]
+        m = model_for(fam, goods)
+        have = {k2: lines[-3].get(k2) for k2 in m.counts}
+        if have != m.counts:
+            problems.append("counts after a failed load %s, model %s" % (have, m.counts))
+    elif lines[-1]["next_index"] != 1 or any(lines[-1][s_] for s_ in SECT.values()):
+        problems.append("a database that failed to load left records behind")
+    return problems, lines[-2].get("error")
+
+
+def error_histories(ck, fam, tags, root):
+    good_tags = tags[:2]
+    cases = []
+    for kind, bad in bad_files(fam, tags, root):
+        for n in range(0, 3):
+            for goods in itertools.permutations(good_tags, n):
+                for p in range(len(goods) + 1):
+                    for query in (False, True):
+                        cases.append((goods, kind, bad, p, query))
+
+    nbad = 0
+
+    def one(c):
+        return c, run_error_history(fam, *c)
+    for (goods, kind, bad, p, query), (problems, flag) in pmap(one, cases):
+        key = "%s/failed-load/%s/%s/p%d/%s" % (fam, kind, "".join(goods) or "-", p, "q" if query else "-")
+        ck.note(key, nontrivial=len(goods) > p, family=fam + " failed-load",
+                outcome="failed load %s: flag=%s good-after=%d" % ("split" if query else "one pass", flag, len(goods) - p),
+                sample={"family": fam, "goods": list(goods), "bad": kind, "position": p, "query": query})
+        if problems:
+            nbad += 1
+            if nbad > 6:
+                ck.extra["failing_histories_not_individually_reported"] = \
+                    ck.extra.get("failing_histories_not_individually_reported", 0) + 1
+                ck.violations.append({"key": key, "what": problems[0][:200], "replay": None})
+                continue
+            ck.fail(key, "; ".join(problems)[:700],
+                    {"observed": problems[0][:300], "problems": problems, "family": fam, "errhist": True,
+                     "goods": list(goods), "bad": kind, "position": p, "query": query, "tier": ck.tier},
+                    confirm=lambda c=(goods, kind, bad, p, query): bool(run_error_history(fam, *c)[0]))
 
 
 def report(ck, fam, perm, kinds, placed, problems):
@@ -857,6 +950,16 @@ def replay(ck, brel, b, root):
         ck.cleanup()
         return 1
     _CTX[fam]["b"] = b
+    if d.get("errhist"):
+        tags = _CTX[fam]["tags"]
+        bad = dict(bad_files(fam, tags, root))[d["bad"]]
+        problems, flag = run_error_history(fam, tuple(d["goods"]), d["bad"], bad, d["position"], d["query"])
+        print("case:", rp["key"])
+        print("error flag:", flag)
+        for p_ in problems:
+            print("problem:", p_)
+        ck.cleanup()
+        return 1 if problems else 0
     placed = tuple((g, tuple(s)) for g, s in d.get("queries", []))
     if "perm" not in d:
         print("replay file describes a differential finding over set; re-run the tier with --only", fam)
